@@ -279,14 +279,12 @@ func (ms *Modules) process() []error {
 	// Collect the list of modules we know about now so when we range
 	// below we don't pick up new modules.  We assume the user tells
 	// us explicitly which modules they are interested in.
-	for _, m := range ms.Modules {
-		mods = append(mods, m)
-	}
+	// The modules are handled in the order of their names, so that the
+	// errors reported do not depend on the iteration order of the map.
+	mods = append(mods, sortedModules(ms.Modules)...)
 	// Submodules that no loaded module includes have include and import
 	// statements to resolve, too.
-	for _, m := range ms.SubModules {
-		mods = append(mods, m)
-	}
+	mods = append(mods, sortedModules(ms.SubModules)...)
 	for _, m := range mods {
 		if err := ms.include(m); err != nil {
 			errs = append(errs, err)
